@@ -116,7 +116,7 @@ theorem mulExt_rd_le (a b : Ext) : (Itv.mulExt rd a b).toE ≤ a.toE * b.toE := 
   · cases a <;> cases b <;> simp [Ext.isFin] at h
     rename_i p q
     refine le_trans (rd_le _) ?_
-    simp only [Itv.mulExt, Ext.toE_fin]
+    simp only [Ext.toE_fin]
     rw [← EReal.coe_mul]; push_cast; exact le_refl _
   · exact le_of_eq (mulExt_eq_of_not_fin rd a b h)
 
